@@ -783,7 +783,7 @@ pub fn run(args: &Args) -> Report {
         ks: if thorough { vec![0, 1, 2, 3, 4, 5] } else { vec![0, 1, 2] },
         env: if thorough { 4 } else { 2 },
         fault: 0,
-        total_wall: Duration::from_secs(if thorough { 1500 } else { 50 }),
+        total_wall: Duration::from_secs(if thorough { 1500 } else { 100 }),
         max_execs_per_case: 20_000_000,
         required_witnesses: W_PARTIAL_WRITE | W_PENDING | W_ERR_INJECTED | W_COMPLETED_OK | W_HALF_CLOSE_LOCAL_FIRST | W_HALF_CLOSE_PEER_FIRST | W_CREDIT_WAIT | W_COALESCED | W_STUCK_LOCAL_SINK | W_OPEN_ENDED_PEER | W_CONN_ENDED | W_DEAD_FLOW_WITH_LOCAL_DATA,
         adaptive: thorough,
